@@ -39,6 +39,9 @@ def handler(body):
 
 
 HAND_RAW = {
+ # two call sites with different needs, and a callee that calls on
+ "two_call_sites": "main:\n    li a0, 1\n    li a1, 2\n    jal ra, f\n    mv s0, a0\n    li a0, 3\n    li a1, 4\n    jal ra, f\n    add a0, s0, a1\n" + EXIT + "f:\n    add a0, a0, a1\n    li a1, 9\n    ret\n",
+ "nested_calls": "main:\n    li a0, 1\n    li a3, 2\n    jal ra, f\n    mv t0, a0\n" + EXIT + "f:\n    addi sp, sp, -4\n    sw ra, 0(sp)\n    addi a0, a0, 1\n    jal ra, g\n    lw ra, 0(sp)\n    addi sp, sp, 4\n    ret\ng:\n    add a0, a0, a3\n    ret\n",
  # RARS interrupt handler idiom: swap a0 with uscratch to get the save area, spill, work, reload, swap back
  "handler_spill_reload": handler(["sw t0, 0(a0)", "sw t1, 4(a0)", "li t0, 5", "mv t1, t0", "lw t0, 0(a0)", "lw t1, 4(a0)"]),
  "handler_clobber": handler(["sw t0, 0(a0)", "sw t1, 0(a0)", "lw t0, 0(a0)"]),
@@ -137,6 +140,13 @@ def families(tier="quick"):
           "csrrsi t1, uscratch, 2", "csrrs t1, uscratch, zero", "li t0, 16", "mv t3, t1", "csrrw t0, uscratch, t0"]
     fam["csr2"] = [{"name": "csr2_%x_%x_%x" % c, "text": wrap([C2[c[0]], C2[c[1]], C2[c[2]]])}
                    for c in itertools.product(range(len(C2)), repeat=3)]
+    # argument / return-value traffic across a call: (before, after) in the caller x every 2-instruction callee body
+    P1 = ["li a0, 1", "li a2, 2", "li s1, 3", "nop"]
+    P2 = ["mv t0, a0", "mv t0, a1", "add t0, a0, s1", "mv t0, a2", "nop"]
+    FB = ["mv a0, a2", "add a0, a0, a1", "li a0, 5", "mv t1, a3", "li a1, 7", "nop", "mv s1, a0"]
+    fam["callret"] = [{"name": "callret_%x_%x_%x_%x" % c,
+                       "text": "main:\n    %s\n    jal ra, f\n    %s\n" % (P1[c[0]], P2[c[1]]) + EXIT + "f:\n    %s\n    %s\n    ret\n" % (FB[c[2]], FB[c[3]])}
+                      for c in itertools.product(range(len(P1)), range(len(P2)), range(len(FB)), range(len(FB)))]
     # interrupt handlers: every 3-instruction body between the two uscratch swaps; a store is only
     # generated while a0 holds the save-area pointer (a store through the interrupted program's a0
     # could alias the save area: the analysis assumes tracked memory is reached only through its base)
